@@ -676,4 +676,8 @@ def run(ctx):
     rule_quaternions(ctx)
     rule_rotation_structure(ctx)
     rule_components(ctx)
+    from . import c16, c11
+    c16.rule_python_parameters(ctx, 'R20.8', only=('simulation.py', 'particle.py', 'rotation.py', 'units.py', 'tools.py'))   # scaling/rotation wrappers hand every factor through
+    c11.rule_pericentre_time(ctx)      # R11.8: the mean motion of the T= option carries G (periods do not depend on the unit system)
+    c11.rule_shared_formulas(ctx)      # R11.4: the inline conversions of the Python front end (a from P, n, M from T) are the C ones, G included
     ctx.not_decided.append('numerical behaviour near degenerate geometry; planetary GM constants (no independent oracle offline); second-order variational frame-shift algebra')
